@@ -362,24 +362,33 @@ def partOf (name : String) (v : Option (List Int)) : List (List Char) :=
   | some l => if l.isEmpty then [] else [lit name ++ ['='] ++ intercalate [','] (l.map showInt)]
   | none => []
 
-def toStr (x : StrIn) : List Char :=
-  let out0 : List (List Char) := match x.dtstart with
-    | some t => [lit "DTSTART:" ++ showDT t]
-    | none => []
-  let parts : List (List Char) :=
-    [lit "FREQ=" ++ FREQNAMES.getD x.freq []] ++
-    (if x.interval != 1 then [lit "INTERVAL=" ++ showInt x.interval] else []) ++
-    (if x.wkst != 0 then [lit "WKST=" ++ wdName x.wkst] else []) ++
-    (match x.count with | some c => [lit "COUNT=" ++ showInt c] | none => []) ++
-    (match x.untilV with | some t => [lit "UNTIL=" ++ showDT t] | none => []) ++
-    partOf "BYSETPOS" x.orig.bysetpos ++ partOf "BYMONTH" x.orig.bymonth ++
-    partOf "BYMONTHDAY" x.orig.bymonthday ++ partOf "BYYEARDAY" x.orig.byyearday ++
-    partOf "BYWEEKNO" x.orig.byweekno ++
-    (match x.orig.byweekday with
-     | some l => if l.isEmpty then [] else [lit "BYDAY=" ++ intercalate [','] (l.map showWDayStr)]
-     | none => []) ++
-    partOf "BYHOUR" x.orig.byhour ++ partOf "BYMINUTE" x.orig.byminute ++
-    partOf "BYSECOND" x.orig.bysecond ++ partOf "BYEASTER" x.orig.byeaster
-  intercalate ['\n'] (out0 ++ [lit "RRULE:" ++ intercalate [';'] parts])
+def byDayPart (v : Option (List WDay)) : List (List Char) :=
+  match v with
+  | some l => if l.isEmpty then [] else [lit "BYDAY=" ++ intercalate [','] (l.map showWDayStr)]
+  | none => []
+
+/-- the `parts` list of `__str__` -/
+def partsOf (x : StrIn) : List (List Char) :=
+  [lit "FREQ=" ++ FREQNAMES.getD x.freq []] ++
+  (if x.interval != 1 then [lit "INTERVAL=" ++ showInt x.interval] else []) ++
+  (if x.wkst != 0 then [lit "WKST=" ++ wdName x.wkst] else []) ++
+  (match x.count with | some c => [lit "COUNT=" ++ showInt c] | none => []) ++
+  (match x.untilV with | some t => [lit "UNTIL=" ++ showDT t] | none => []) ++
+  partOf "BYSETPOS" x.orig.bysetpos ++ partOf "BYMONTH" x.orig.bymonth ++
+  partOf "BYMONTHDAY" x.orig.bymonthday ++ partOf "BYYEARDAY" x.orig.byyearday ++
+  partOf "BYWEEKNO" x.orig.byweekno ++
+  byDayPart x.orig.byweekday ++
+  partOf "BYHOUR" x.orig.byhour ++ partOf "BYMINUTE" x.orig.byminute ++
+  partOf "BYSECOND" x.orig.bysecond ++ partOf "BYEASTER" x.orig.byeaster
+
+/-- `'RRULE:' + ';'.join(parts)` -/
+def rruleLineOf (x : StrIn) : List Char := lit "RRULE:" ++ intercalate [';'] (partsOf x)
+
+def dtstartLines (x : StrIn) : List (List Char) :=
+  match x.dtstart with
+  | some t => [lit "DTSTART:" ++ showDT t]
+  | none => []
+
+def toStr (x : StrIn) : List Char := intercalate ['\n'] (dtstartLines x ++ [rruleLineOf x])
 
 end RRuleStr
